@@ -286,7 +286,20 @@ func (in *inst) next() answer {
 	})
 	a := answer{probes: in.da.probes}
 	if err != nil {
-		in.engErr = "GetNextBatch returned an error: " + err.Error()
+		// an error answer is a legitimate way to report a failed retrieval (the manager just tries again later);
+		// it releases nothing, so it is an empty answer for the oracle — but only when a retrieval failure was
+		// really injected during this call
+		injected := false
+		for _, p := range in.da.probes {
+			if p.kind == pError {
+				injected = true
+			}
+		}
+		if !injected {
+			in.engErr = "GetNextBatch returned an error although no retrieval failure was injected: " + err.Error()
+			return a
+		}
+		a.nilResp = true
 		return a
 	}
 	if resp == nil || resp.Batch == nil {
